@@ -43,6 +43,11 @@ static void init_obj(struct conf_node_object *o, struct conf_node_object *parent
 
 static int streq(const char *a, const char *b) { return (a == NULL || b == NULL) ? a == b : strcmp(a, b) == 0; }
 
+#if defined(K_TYPED)
+/* C16c: a registered INTEGER setting: the file's text is delivered as a number; an unparsable
+ * text is rejected and the previously parsed value stays in force */
+#define K_STRING
+#endif
 #if defined(K_STRING)
 #define KIND CONF_STRING
 typedef struct conf_node_string node_t;
@@ -125,7 +130,9 @@ void harness(void)
     conf_get_root();
     init_obj(&live, NULL);
     if (registered) {
-#if defined(K_STRING)
+#if defined(K_TYPED)
+        node = conf_register_string(&live, CONF_STRING_INTEGER, "n", "5");
+#elif defined(K_STRING)
         node = conf_register_string(&live, CONF_STRING_PLAIN, "n", "d");
 #elif defined(K_INADDR)
         node = conf_register_inaddr(&live, "n", "d", "d");
@@ -138,6 +145,23 @@ void harness(void)
     one_load(&live, &node, registered, in0, v0);
     before = node ? val_char(cur_value(node)) : 0;
     calls0 = hook_calls;
+#if defined(K_TYPED)
+    {
+        /* typed delivery: REG=1 in these queries */
+        int parsed0 = node->parsed.p_integer;
+        int t0 = in0 ? v0 : '5', t1 = in1 ? v1 : '5';
+        int ok0 = t0 >= '0' && t0 <= '9', ok1 = t1 >= '0' && t1 <= '9';
+        VP_ASSERT(parsed0 == (ok0 ? t0 - '0' : 5), "C16: an integer setting delivers the number written, an unparsable first value leaves the default's");
+        one_load(&live, &node, registered, in1, v1);
+        VP_ASSERT(node->parsed.p_integer == (ok1 ? t1 - '0' : parsed0), "C16: an unparsable typed value is rejected, the previous parsed value stays in force; a parsable one is delivered");
+        VP_ASSERT((hook_calls != calls0) == (ok1 && t1 - '0' != parsed0), "C16: the hook runs exactly when the parsed value changes");
+        set_clear(&live.contents, 0);
+        VP_COVER(!ok1 && ok0, "opt: second value unparsable");
+        VP_COVER(ok1 && ok0 && t1 != t0, "opt: both values numbers");
+        VP_COVER(!ok0, "opt: first value unparsable");
+        return;
+    }
+#endif
 
     /* second file: the step under test */
     one_load(&live, &node, registered, in1, v1);
@@ -165,7 +189,9 @@ void harness(void)
     /* third step: everything still owned by the live tree can be released exactly once */
     set_clear(&live.contents, 0);
 
+#ifndef K_TYPED
     VP_COVER(v0 != v1, "the two files give different values");
     VP_COVER(v0 == v1, "the two files give the same value");
     VP_COVER(v1 == 'd' && v0 != 'd', "the second file spells out the default");
+#endif
 }
